@@ -76,6 +76,7 @@ fn main() {
     let code = match id.as_str() {
         "C01" => drive(&props::bulkhead::C01, &opts),
         "C07" => drive(&props::bulkhead::C07, &opts),
+        "C04" => drive(&props::breaker_model::C04, &opts),
         "C02" => drive(&props::ratelimiter::C02, &opts),
         "C15" => drive(&props::ratelimiter::C15, &opts),
         _ => {
